@@ -25,6 +25,7 @@ pub fn fault_gen(p: &mut Profile) {
     g.par_pct = 0;
     g.schedule_knobs = true;
     g.op_weights = [50, 8, 14, 14, 4, 6, 0, 0, 2];
+    g.growth_pct = 6;
     let o = &mut p.oracles;
     o.fault_free = false;
     o.readback = true;
@@ -234,6 +235,9 @@ pub fn run_fault(p: &Profile, seed: u64, run: u64, ov: &Override, want_case: boo
     });
     // dry run
     let dry = one_run(p, &cfg, &steps, sched_seed, ov.sched.clone(), None);
+    // requests that are rare and structurally significant: header writes,
+    // writes into the top tables, zeroing requests, fsyncs
+    let mut rare: Vec<Vec<usize>> = vec![vec![]; 5];
     let (n_reqs, max_len) = match &dry {
         Ok((w, _)) => {
             if w.failed() {
@@ -244,6 +248,24 @@ pub fn run_fault(p: &Profile, seed: u64, run: u64, ov: &Override, want_case: boo
             }
             out.steps = w.sim.core.steps.get();
             out.fingerprint = w.sim.core.fingerprint.get();
+            let img = w.sim.file_content(w.files[0]);
+            let hdr = qspec::parse_header(&img).ok();
+            let cs = cfg.cs();
+            for r in w.sim.core.reqs.borrow().iter() {
+                let (Some(ord), true) = (r.ord, r.file == w.files[0]) else { continue };
+                let class = match r.kind {
+                    ReqKind::Write if r.off == 0 => 0,
+                    ReqKind::Write => match &hdr {
+                        Some(h) if r.off >= h.rt_off && r.off < h.rt_off + h.rt_clusters as u64 * cs => 1,
+                        Some(h) if r.off >= h.l1_off && r.off < h.l1_off + (h.l1_size as u64 * 8).div_ceil(cs) * cs => 2,
+                        _ => continue,
+                    },
+                    ReqKind::Punch => 3,
+                    ReqKind::Fsync => 4,
+                    _ => continue,
+                };
+                rare[class].push(ord);
+            }
             (w.sim.core.fault_ordinal.get(), w.max_file_len)
         }
         Err(info) => {
@@ -269,6 +291,18 @@ pub fn run_fault(p: &Profile, seed: u64, run: u64, ov: &Override, want_case: boo
                 all
             } else {
                 let mut s: BTreeSet<usize> = BTreeSet::new();
+                // every header write, a few of each other rare class ...
+                for (ci, c) in rare.iter().enumerate() {
+                    let want = if ci == 0 { 8 } else { 5 };
+                    if c.len() <= want {
+                        s.extend(c.iter().copied());
+                    } else {
+                        for _ in 0..want {
+                            s.insert(c[rng.below(c.len() as u64) as usize]);
+                        }
+                    }
+                }
+                // ... and the rest at random
                 while s.len() < 70 {
                     s.insert(rng.below(n_reqs as u64) as usize);
                 }
